@@ -454,7 +454,7 @@ func (cm *clientMedia) writePacketRTCP(pkt rtcp.Packet) error {
 
 	maxPlainPacketSize := cm.c.MaxPacketSize
 	if cm.srtpOutCtx != nil {
-		maxPlainPacketSize -= srtcpOverhead
+		maxPlainPacketSize -= cm.srtpOutCtx.rtcpOverhead()
 	}
 
 	if len(buf) > maxPlainPacketSize {
